@@ -126,6 +126,8 @@ type c12bConn struct {
 	react     func(p *c12bPkt) error // runs on the writer's goroutine; its result is Write's result
 	inAttempt bool
 	notify    chan c12bPkt
+	nOthers   int      // other requests started on this connection
+	strayOps  []string // late acknowledgements delivered since the last attempt on it (for the model: MUnreg)
 }
 
 func (cc *c12bConn) onWrite(c *memConn, pkt []byte) error {
@@ -252,6 +254,10 @@ type c12bStepPlan struct {
 	Target string // fresh, same, unconnected
 	Others []c12bOtherSpec
 	EP, ER int
+	// Late: acknowledgements for the message's identifier which the (slow) peer delivers AFTER the call
+	// has returned, on the connection the call ran on (0 PUBACK, 1 PUBREC, 2 PUBCOMP; duplicates
+	// allowed). Only on a live connection without other requests.
+	Late []int
 }
 
 type c12bScenario struct {
@@ -300,6 +306,13 @@ func (sc *c12bScenario) text() string {
 		if sc.QoS == 2 {
 			fmt.Fprintf(&sb, " PUBREL:%s", c12bEnvNames[st.ER])
 		}
+		if len(st.Late) > 0 {
+			sb.WriteString(" {after the call returned the peer delivers late:")
+			for _, k := range st.Late {
+				sb.WriteString(" " + []string{"PUBACK", "PUBREC", "PUBCOMP"}[k])
+			}
+			sb.WriteString("}")
+		}
 	}
 	return sb.String()
 }
@@ -319,6 +332,8 @@ type c12bOther struct {
 
 type c12bAtt struct {
 	conn   int
+	gap    []c12bPkt // PUBLISH / PUBREL written on the connection after the call, while late acks were delivered
+	late   int       // late acknowledgements actually delivered
 	pkts   []c12bPkt
 	class  int
 	cause  int
@@ -627,9 +642,12 @@ func c12bRun(sc *c12bScenario) *c12bCase {
 			cc.cli.VerifSetIDLast(sc.Start)
 		}
 		ex := c12bExecStep{conn: cc.idx, ep: st.EP, er: st.ER}
+		ex.ops = append(ex.ops, cc.strayOps...) // what the late acknowledgements did to this client's signaller
+		cc.strayOps = nil
 		if cc.connected && (i > 0 || sc.IDMode == 0) {
 			for _, spec := range st.Others {
 				owner++
+				cc.nOthers++
 				o, err := c12bSetUpOther(cc, spec, owner, c12bIDPlus(msg.ID, spec.IDPlus))
 				cs.others = append(cs.others, o)
 				if err != nil {
@@ -723,8 +741,29 @@ func c12bRun(sc *c12bScenario) *c12bCase {
 			break
 		}
 		att.id = msg.ID
-		cs.atts = append(cs.atts, att)
 		cancel()
+		if len(st.Late) > 0 && cc.connected && cc.nOthers == 0 && !cc.conn.isClosed() && msg.ID != 0 {
+			// the slow peer answers now; a barrier (inbound QoS 1 PUBLISH, answered with PUBACK by the
+			// reader goroutine behind them) proves the reader has processed every one of them
+			from := cc.logLen()
+			for _, k := range st.Late {
+				cc.conn.send(c12bAckFor(k, msg.ID))
+				cc.strayOps = append(cc.strayOps, fmt.Sprintf("hbUnreg %d %d", k, msg.ID))
+				att.late++
+			}
+			cc.conn.send(encPublish(inMsg{Topic: []byte("b"), ID: 9, QoS: 1, Payload: []byte{1}}))
+			if _, ok := cc.waitPkt(from, func(p *c12bPkt) bool { return p.Kind == "puback" && p.ID == 9 }); !ok {
+				cs.err = fmt.Errorf("the reader did not answer the barrier after late acknowledgements (attempt %d)", i)
+				cs.atts = append(cs.atts, att)
+				return cs
+			}
+			for _, p := range cc.logFrom(from) {
+				if p.Kind == "publish" || p.Kind == "pubrel" {
+					att.gap = append(att.gap, p)
+				}
+			}
+		}
+		cs.atts = append(cs.atts, att)
 		handle = nil
 		if att.class == 1 {
 			handle = res.err.(mqtt.ErrorWithRetry)
@@ -791,16 +830,19 @@ func (cs *c12bCase) coq() string {
 	scen := fmt.Sprintf("{| hc_clients := %s; hc_msg := %s; hc_first := %s; hc_rest := %s; hc_others := %s |}",
 		cListInline(cl), msg, first, cListInline(rest), cListInline(others))
 	var atts []string
-	for _, a := range cs.atts {
+	wevs := func(pkts []c12bPkt) string {
 		var w []string
-		for _, p := range a.pkts {
+		for _, p := range pkts {
 			if p.Kind == "publish" {
 				w = append(w, fmt.Sprintf("hbP %d %d %s %s %s %s %s", r.id(p.ID), p.QoS, cBool(p.Retain), cBool(p.Dup), cBool(p.OK), cBytes(p.Topic), cBytes(p.Payload)))
 			} else {
 				w = append(w, fmt.Sprintf("hbR %d %s", r.id(p.ID), cBool(p.OK)))
 			}
 		}
-		atts = append(atts, fmt.Sprintf("hbA %s %d %d %d", cListInline(w), a.class, a.cause, r.id(a.id)))
+		return cListInline(w)
+	}
+	for _, a := range cs.atts {
+		atts = append(atts, fmt.Sprintf("hbA %s %s %d %d %d", wevs(a.pkts), wevs(a.gap), a.class, a.cause, r.id(a.id)))
 	}
 	var fates []string
 	for _, f := range cs.fates {
@@ -828,9 +870,9 @@ func (cs *c12bCase) describe() map[string]interface{} {
 	var atts []string
 	classes := []string{"nil", "ErrorWithRetry", "write error without handle", "ErrNotConnected", "ErrInvalidQoS", "PANIC", "DID NOT RETURN", "other error"}
 	causes := []string{"", " (write error)", " (ErrClosedTransport)", " (context)"}
-	for i, a := range cs.atts {
+	txt := func(pkts []c12bPkt) []string {
 		var w []string
-		for _, p := range a.pkts {
+		for _, p := range pkts {
 			okTxt := ""
 			if !p.OK {
 				okTxt = " write-failed"
@@ -841,7 +883,14 @@ func (cs *c12bCase) describe() map[string]interface{} {
 				w = append(w, fmt.Sprintf("PUBREL(id=%d%s)", p.ID, okTxt))
 			}
 		}
-		atts = append(atts, fmt.Sprintf("attempt %d on client %d wrote %v -> %s%s, Message.ID=%d %s", i, a.conn, w, classes[a.class], causes[a.cause], a.id, a.errTxt))
+		return w
+	}
+	for i, a := range cs.atts {
+		t := fmt.Sprintf("attempt %d on client %d wrote %v -> %s%s, Message.ID=%d %s", i, a.conn, txt(a.pkts), classes[a.class], causes[a.cause], a.id, a.errTxt)
+		if a.late > 0 {
+			t += fmt.Sprintf("; then %d late acknowledgement(s) delivered, meanwhile written on the connection: %v", a.late, txt(a.gap))
+		}
+		atts = append(atts, t)
 	}
 	var oth []string
 	fateTxt := []string{"?", "acknowledged (returned nil)", "never signalled (returned its own ErrorWithRetry)", "UNEXPECTED"}
@@ -1006,9 +1055,54 @@ func c12bRandom(r *rand.Rand, n int) []*c12bScenario {
 					st.Others = append(st.Others, o)
 				}
 			}
+			if r.Intn(3) == 0 {
+				for c := r.Intn(4); c > 0; c-- {
+					st.Late = append(st.Late, r.Intn(3))
+				}
+			}
 			sc.Steps = append(sc.Steps, st)
 		}
 		out = append(out, sc)
+	}
+	return out
+}
+
+// same-client chains on ONE live connection with context-cancel (and write-failure) interruptions, the
+// peer delivering the withheld acknowledgements late — after the call returned, duplicates included
+func c12bLate(r *rand.Rand, all bool) []*c12bScenario {
+	var out []*c12bScenario
+	lates := [][]int{{}, {1}, {1, 1}, {1, 1, 1}, {2}, {2, 2}, {1, 2}, {2, 1, 1}, {0}, {0, 0, 1}}
+	seconds := []c12bStepPlan{
+		{Target: "same", EP: c12bEnvX, ER: 3, Late: []int{1, 1}},
+		{Target: "same", EP: 3, ER: c12bEnvX, Late: []int{2, 1}},
+		{Target: "same", EP: c12bEnvX, ER: 3},
+		{Target: "fresh", EP: c12bEnvX, ER: 3, Late: []int{1, 1}},
+	}
+	n, g := 0, 0
+	for _, qos := range []byte{1, 2} {
+		firsts := []c12bEnv{{c12bEnvW, 3}, {c12bEnvX, 3}}
+		if qos == 2 {
+			firsts = append(firsts, c12bEnv{3, c12bEnvW}, c12bEnv{3, c12bEnvX})
+		}
+		for _, f := range firsts {
+			for _, l := range lates {
+				g++
+				for si, sec := range seconds {
+					n++
+					if !all && si != g%len(seconds) && si != (g+1)%len(seconds) {
+						continue
+					}
+					sc := &c12bScenario{QoS: qos, Retain: n%2 == 0, Topic: fmt.Sprintf("l%d", n%5), Payload: []byte{byte(n)}}
+					c12bSetID(sc, n, r)
+					sc.Steps = []c12bStepPlan{
+						{Target: "fresh", EP: f.ep, ER: f.er, Late: l},
+						sec,
+						{Target: "same", EP: 3, ER: 3, Late: []int{1, 2}},
+					}
+					out = append(out, sc)
+				}
+			}
+		}
 	}
 	return out
 }
@@ -1030,6 +1124,8 @@ func c12bFamily(cf *casesFile, m *meta) int {
 		scs = c12bEnumerate(r, false)
 	}
 	nEnum := len(scs)
+	late := c12bLate(r, cfg.tier == "thorough")
+	scs = append(scs, late...)
 	scs = append(scs, c12bRandom(r, nRandom)...)
 
 	cases := make([]*c12bCase, len(scs))
@@ -1051,7 +1147,7 @@ func c12bFamily(cf *casesFile, m *meta) int {
 	wg.Wait()
 
 	var items []string
-	retried, collided, chains3 := 0, 0, 0
+	retried, collided, chains3, lateDelivered := 0, 0, 0, 0
 	for _, cs := range cases {
 		if cs.err != nil {
 			// the set-up itself did not work: with the unchanged library this never happens; report it as
@@ -1068,6 +1164,12 @@ func c12bFamily(cf *casesFile, m *meta) int {
 		if len(cs.atts) > 2 {
 			chains3++
 		}
+		for _, a := range cs.atts {
+			if a.late > 0 {
+				lateDelivered++
+				break
+			}
+		}
 		if len(cs.others) > 0 {
 			collided++
 			if len(m.Samples) < 6 && len(cs.atts) > 1 && retried%97 == 1 {
@@ -1081,6 +1183,8 @@ func c12bFamily(cf *casesFile, m *meta) int {
 	cf.result("M_handle", "hb_failing c12b_model_ok cases_handle")
 	m.Distribution["family_handle"] = len(items)
 	m.Distribution["handle_enumerated"] = nEnum
+	m.Distribution["handle_late_ack_chains"] = len(late)
+	m.Distribution["handle_with_late_acks_delivered"] = lateDelivered
 	m.Distribution["handle_random_chains"] = nRandom
 	m.Distribution["handle_with_retry"] = retried
 	m.Distribution["handle_three_or_more_attempts"] = chains3
